@@ -100,7 +100,7 @@ def do_update(w, seam, u, op_index, top='Manifest', session=None):
                     m = session['m']
                     info['reused_loader'] = True
                 else:
-                    m = ManifestRecursiveLoader(os.path.join(root, top), **k)
+                    m = ManifestRecursiveLoader(os.path.join(root, top), **dict(k, **_lkw()))
                 if session is not None:
                     session['m'] = None
                 if u.get('pre_verify') is not None:
@@ -165,12 +165,12 @@ def run_readonly_op(w, po, top):
     tp = os.path.join(w.root, top)
     kind = po['op']
     if kind == 'verify':
-        return call(lambda: ManifestRecursiveLoader(tp).assert_directory_verifies(po.get('sub', '')))
+        return call(lambda: ManifestRecursiveLoader(tp, **_lkw()).assert_directory_verifies(po.get('sub', '')))
     if kind == 'verify-kg':
-        return call(lambda: ManifestRecursiveLoader(tp).assert_directory_verifies(po.get('sub', ''), fail_handler=lambda e: False))
+        return call(lambda: ManifestRecursiveLoader(tp, **_lkw()).assert_directory_verifies(po.get('sub', ''), fail_handler=lambda e: False))
     if kind == 'lookup':
         def lk():
-            m = ManifestRecursiveLoader(tp)
+            m = ManifestRecursiveLoader(tp, **_lkw())
             m.find_path_entry(po.get('path', 'x'))
             m.verify_path(po.get('path', 'x'))
             m.find_dist_entry('dist-0.tar', os.path.dirname(po.get('path', '')))
@@ -179,7 +179,7 @@ def run_readonly_op(w, po, top):
         return call(lk)
     if kind == 'discard':
         def dc():
-            m = ManifestRecursiveLoader(tp, hashes=po.get('hashes', ['SHA256']), sort=True, compress_watermark=0)
+            m = ManifestRecursiveLoader(tp, hashes=po.get('hashes', ['SHA256']), sort=True, compress_watermark=0, **_lkw())
             m.update_entries_for_directory(po.get('sub', ''))
             m.set_timestamp(__import__('datetime').datetime(2021, 1, 1))
             del m
@@ -199,7 +199,36 @@ def effective_hashes(u):
     return None
 
 
+_ENV = {'env': None}
+
+
+def _lkw():
+    """constructor arguments every loader of the current history gets (the shared OpenPGP environment of a signed tree)"""
+    return {'openpgp_env': _ENV['env']} if _ENV['env'] is not None else {}
+
+
 def run_history(sc, want_idempotence=True, faults=None, audits=True):
+    """Execute the history.  With sc['signed_top'] the top-level Manifest starts out validly signed (real gpg behind the
+    proxy, test key, fixed peer time) and every loader of the history shares one OpenPGP environment object."""
+    if not sc.get('signed_top'):
+        return _run_history(sc, want_idempotence, faults, audits)
+    from . import gpgsim as GS
+    from gemato.openpgp import SystemGPGEnvironment
+    old_home = os.environ.get('GNUPGHOME')
+    os.environ['GNUPGHOME'] = GS.signer_home()
+    _ENV['env'] = SystemGPGEnvironment()
+    try:
+        with GS.RealPeer(faketime=GS.SIGN_TIME):
+            return _run_history(sc, want_idempotence, faults, audits)
+    finally:
+        _ENV['env'] = None
+        if old_home is None:
+            os.environ.pop('GNUPGHOME', None)
+        else:
+            os.environ['GNUPGHOME'] = old_home
+
+
+def _run_history(sc, want_idempotence=True, faults=None, audits=True):
     """Execute the history.  Returns dict(violations, seam list, counters, zones, outcome)."""
     violations = []
     counters = {}
@@ -210,6 +239,19 @@ def run_history(sc, want_idempotence=True, faults=None, audits=True):
     top = sc.get('top', 'Manifest')
     with World(sc) as w:
         w.build()
+        if sc.get('signed_top') and _ENV['env'] is not None:
+            from . import gpgsim as GS
+            tp_ = os.path.join(w.root, top)
+            try:
+                with _o['open'](tp_, 'r', encoding='utf8') as f:
+                    plain_ = f.read()
+                st_ = _o['os.stat'](tp_)
+                with _o['open'](tp_, 'w', encoding='utf8') as f:
+                    f.write(GS.clearsign(plain_, key='signer'))
+                _o['os.utime'](tp_, ns=(st_.st_atime_ns, st_.st_mtime_ns))
+                counters['histories_with_a_signed_top_level'] = 1
+            except (OSError, UnicodeDecodeError):
+                pass
         clock = Clock(epoch_ns=w.epoch_ns + 10_000_000_000 + int(sc.get('clock_offset_s', 0)) * 10**9,
                       key=sc['order_key'], mode='micro')
         seam = Seam(w.root, order_key=sc['order_key'], virtual_root=True, clock=clock, faults=faults, patch_time=True,
@@ -426,7 +468,7 @@ def run_history(sc, want_idempotence=True, faults=None, audits=True):
             mv = Model(w.root, top).verdict(scope)
             with seam:
                 seam.begin_op(opi)
-                rv = call(lambda: ManifestRecursiveLoader(os.path.join(w.root, top)).assert_directory_verifies(scope))
+                rv = call(lambda: ManifestRecursiveLoader(os.path.join(w.root, top), **_lkw()).assert_directory_verifies(scope))
             opi += 1
             results.append(rv)
             if rv[0] == 'INTERNAL':
